@@ -26,7 +26,7 @@ func accelFamilies(thorough bool) (jobs []job) {
 	anch := anchFamily(4, false)
 	land := landFamily()
 	corpus := corpusPatterns()
-	anchProf := profile{"ANCH {a,\\n,c}", map[rune]rune{'b': '\n'}, []rune{'a', 'b', 'c'}}
+	anchProf := profile{name: "ANCH {a,\\n,c}", m: map[rune]rune{'b': '\n'}, input: []rune{'a', 'b', 'c'}}
 	add := func(fam string, pats []Pat, o optSet, pr profile, L int) {
 		jobs = append(jobs, job{fam: fam, pats: pats, opts: o, prof: pr, maxL: L})
 	}
